@@ -31,39 +31,47 @@ HasTrace(p) == p = "Smooth"
 \* initial potentials need a domain mesh: only the three polygons provide one
 HasDomainMesh(d) == d # "Circle"
 
-VARIABLES cfg, phase, k, have, err
-vars == <<cfg, phase, k, have, err>>
+VARIABLES cfg, phase, k, have, err,
+          obs,      \* the observable steps of the current iteration, in order (what the trace recorder sees)
+          meshobj   \* identity of the mesh object the loop iterates over (the operators were built with object 0)
+vars == <<cfg, phase, k, have, err, obs, meshobj>>
 
 Configs == [problem : Problems, domain : Domains, exact : BOOLEAN, hh2 : BOOLEAN, hier : BOOLEAN, l2 : BOOLEAN, sobolev : BOOLEAN,
             refinement : Refinements, estimator : EstimatorsSet, grading : BOOLEAN]
-Init == cfg \in Configs /\ phase = "configure" /\ k = 0 /\ have = {} /\ err = "none"
+Init == cfg \in Configs /\ phase = "configure" /\ k = 0 /\ have = {} /\ err = "none" /\ obs = <<>> /\ meshobj = 0
 
-Goto(p) == phase' = p /\ UNCHANGED <<cfg, k, have, err>>
-Fail(e) == err' = e /\ phase' = "failed" /\ UNCHANGED <<cfg, k, have>>
+Goto(p) == phase' = p /\ UNCHANGED <<cfg, k, have, err, obs, meshobj>>
+See(p, e) == phase' = p /\ obs' = Append(obs, e) /\ UNCHANGED <<cfg, k, have, err, meshobj>>
+Fail(e) == err' = e /\ phase' = "failed" /\ UNCHANGED <<cfg, k, have, obs, meshobj>>
 
 Configure ==
   /\ phase = "configure"
   /\ IF ~Accepted(cfg.problem, cfg.domain) THEN Fail("problem_helper: invalid domain for problem")
      ELSE Goto("assemble")
-Assemble == phase = "assemble" /\ Goto("rhs")
-LoadVector == phase = "rhs" /\ Goto("solve")
-Solve == phase = "solve" /\ phase' = "after_solve" /\ have' = have \cup {"Phi"} /\ UNCHANGED <<cfg, k, err>>
-HH2 == phase = "after_solve" /\ Goto(IF cfg.hh2 THEN "hh2" ELSE "hier?")
+Assemble == phase = "assemble" /\ See("rhs", "assemble")
+\* -M0 u0 through InitialOperator.linform_vector (observable), + g through a closure of problems.py (not observable)
+LoadVector == phase = "rhs" /\ (IF HasU0(cfg.problem) THEN See("solve", "rhs") ELSE Goto("solve"))
+Solve == phase = "solve" /\ phase' = "after_solve" /\ have' = have \cup {"Phi"} /\ obs' = Append(obs, "solve") /\ UNCHANGED <<cfg, k, err, meshobj>>
+HH2 == phase = "after_solve" /\ (IF cfg.hh2 THEN See("hh2", "hh2") ELSE Goto("hier?"))
 HH2Done == phase = "hh2" /\ Goto("hier?")
 Hier ==
   /\ phase = "hier?"
-  /\ phase' = "residual" /\ have' = (IF cfg.hier THEN have \cup {"hierarch"} ELSE have) /\ UNCHANGED <<cfg, k, err>>
+  /\ phase' = "residual" /\ have' = (IF cfg.hier THEN have \cup {"hierarch"} ELSE have)
+  /\ obs' = (IF cfg.hier THEN Append(obs, "hier") ELSE obs) /\ UNCHANGED <<cfg, k, err, meshobj>>
 \* the residual closure is built here: C03's contract is evaluated on it
-Residual == phase = "residual" /\ "Phi" \in have /\ phase' = "l2?" /\ have' = have \cup {"residual"} /\ UNCHANGED <<cfg, k, err>>
+Residual == phase = "residual" /\ "Phi" \in have /\ phase' = "l2?" /\ have' = have \cup {"residual"}
+            /\ obs' = Append(obs, "residual") /\ UNCHANGED <<cfg, k, err, meshobj>>
 L2 ==
   /\ phase = "l2?"
-  /\ phase' = "dump_l2" /\ have' = (IF cfg.l2 THEN have \cup {"weighted_l2"} ELSE have) /\ UNCHANGED <<cfg, k, err>>
+  /\ phase' = "dump_l2" /\ have' = (IF cfg.l2 THEN have \cup {"weighted_l2"} ELSE have)
+  /\ obs' = (IF cfg.l2 THEN Append(obs, "l2") ELSE obs) /\ UNCHANGED <<cfg, k, err, meshobj>>
 DumpL2 ==
   /\ phase = "dump_l2"
   /\ IF "weighted_l2" \notin have THEN Fail("NameError: weighted_l2") ELSE Goto("sobolev?")
 Sobolev ==
   /\ phase = "sobolev?"
-  /\ phase' = "dump_sobolev" /\ have' = (IF cfg.sobolev THEN have \cup {"sobolev"} ELSE have) /\ UNCHANGED <<cfg, k, err>>
+  /\ phase' = "dump_sobolev" /\ have' = (IF cfg.sobolev THEN have \cup {"sobolev"} ELSE have)
+  /\ obs' = (IF cfg.sobolev THEN Append(obs, "sobolev") ELSE obs) /\ UNCHANGED <<cfg, k, err, meshobj>>
 DumpSobolev ==
   /\ phase = "dump_sobolev"
   /\ IF "sobolev" \notin have THEN Fail("NameError: sobolev") ELSE Goto("mark")
@@ -73,11 +81,20 @@ Mark ==
                    [] cfg.estimator = "sobolev-l2" -> {"sobolev", "weighted_l2"} IN
      IF ~(need \subseteq have) \/ (cfg.estimator = "hierarchical" /\ ~cfg.hier) THEN Fail("assert: estimator for marking was not computed")
      ELSE Goto("refine")
-Refine == phase = "refine" /\ Goto(IF cfg.grading THEN "grade" ELSE "next")
-Grade == phase = "grade" /\ Goto("next")
+Refine == phase = "refine" /\ See(IF cfg.grading THEN "grade" ELSE "next", "refine")
+\* adaptive refinements are post-processed by Mesh.refine_grading on the same mesh object; for uniform refinement the
+\* driver instead builds a *new* graded tensor mesh (unit square and L-shape only; silently nothing on the other two
+\* domains) and rebinds its local name: the operators and estimators keep the mesh object they were built with
+RegridDomains == {"UnitSquare", "LShape"}
+Grade ==
+  /\ phase = "grade"
+  /\ IF cfg.refinement # "uniform" THEN See("next", "grade")
+     ELSE IF cfg.domain \in RegridDomains
+          THEN phase' = "next" /\ meshobj' = meshobj + 1 /\ UNCHANGED <<cfg, k, have, err, obs>>
+          ELSE Goto("next")
 NextIter ==
   /\ phase = "next" /\ k < MaxIter
-  /\ k' = k + 1 /\ phase' = "assemble" /\ UNCHANGED <<cfg, err>>
+  /\ k' = k + 1 /\ phase' = "assemble" /\ obs' = <<>> /\ UNCHANGED <<cfg, err, meshobj>>
   \* results of the previous iteration stay bound to their names
   /\ have' = have \ {"Phi", "residual"}
 
@@ -94,6 +111,17 @@ ResidualAfterSolve == phase = "l2?" => "Phi" \in have
 RejectedFailEarly == (~Accepted(cfg.problem, cfg.domain) /\ err # "none") => k = 0
 \* (diagnostic; expected to be violated) switching an estimator off never fails
 AnyFlagsRun == Accepted(cfg.problem, cfg.domain) => err = "none"
+
+\* the observable steps of one complete iteration are a function of the configuration alone
+Opt(b, e) == IF b THEN <<e>> ELSE <<>>
+ExpectedIter(c) ==
+  <<"assemble">> \o Opt(HasU0(c.problem), "rhs") \o <<"solve">> \o Opt(c.hh2, "hh2") \o Opt(c.hier, "hier") \o <<"residual">>
+  \o Opt(c.l2, "l2") \o Opt(c.sobolev, "sobolev") \o <<"refine">> \o Opt(c.grading /\ c.refinement # "uniform", "grade")
+ProtocolFixed == phase = "next" => obs = ExpectedIter(cfg)
+IsPrefixOf(a, b) == Len(a) <= Len(b) /\ \A i \in 1..Len(a) : a[i] = b[i]
+ProtocolPrefix == err = "none" => IsPrefixOf(obs, ExpectedIter(cfg))
+\* (diagnostic; expected to be violated) the operators always hold the mesh object the loop iterates over
+OperatorsSeeLoopMesh == meshobj = 0
 
 AcceptedCombos == {<<p, d>> \in Problems \X Domains : Accepted(p, d)}
 =============================================================================
